@@ -72,6 +72,18 @@
                                  datagrams with the same request sequence number and command on the wire
                                  ((Q) is false; the fault-free clauses X, S, O, C still hold on that run, which
                                  is why only a late reply makes the defect observable: the check withholds one)
+  * `exchangesOk_imp_multi`, `accepts_imp_acceptsMulti`  the monitor used for wire logs of threads that address
+                                 BRIDGED targets (an exchange is tx (rx)+ owned by one thread, clause X′) accepts every
+                                 log the one-reply monitor accepts: it generalises it.  The model has ONE lock cell and
+                                 unbridged exchanges; that the source uses one lock object for every target is part of
+                                 `source_shape` (`Shape.oneLock`), and schedules of threads addressing DIFFERENT targets
+                                 (unbridged other IPMB address, routed through one / two bridges, next to the keep-alive)
+                                 are judged on the real code by that monitor
+  * `lock_per_target_counterexample`  the model with a lock PER TARGET ADDRESS (`stepT`: `_lock_for(target)`) - an
+                                 application thread addressing 82h next to the keep-alive: one schedule interleaves the
+                                 exchanges and hands the keep-alive the other's reply ((X), (O) false), another puts
+                                 one session sequence number on two datagrams ((S) false); with both threads addressing
+                                 the BMC the same schedules are runs of the one-lock model
   * `source_is_safe_variant`, `source_cfg_safe`, `today_all_schedules`  TODAY's source is the safe variant of all three
                                  (stopper joins; number allocated inside the lock block; wrapper packed by the
                                  transmission of every attempt), so the theorems above
@@ -119,6 +131,73 @@ run's directed schedules (interval elapses just before the stopper; both threads
 either stores) then produce the failing schedule. -/
 theorem source_is_safe_variant : PyIpmi.Gen.Threads.shape = Shape.expected true true true := by
   decide
+
+/-! ## exchanges of more than one datagram (threads addressing bridged targets) -/
+
+/-- On every wire log clause (X) implies clause (X′): the multi-datagram reading of "exchanges are not interleaved"
+generalises the one-reply-per-datagram reading, it does not contradict it. -/
+theorem exchangesOk_imp_multi (w : List WEv) (h : exchangesOk w = true) : exchangesOkMulti w = true :=
+  ((simM_fold w Mon.init MonM.init ⟨rfl, fun _ => ⟨rfl, Or.inl ⟨rfl, rfl⟩⟩⟩).2 h).1
+
+theorem accepts_imp_acceptsMulti (w : List WEv) (rs : List Res) (h : accepts w rs = true) : acceptsMulti w rs = true := by
+  simp only [accepts, acceptsMulti, Bool.and_eq_true] at h ⊢
+  exact ⟨⟨⟨exchangesOk_imp_multi w h.1.1.1, h.1.1.2⟩, h.1.2⟩, h.2⟩
+
+/-! ## a lock per target (NOT the source: `Shape.oneLock`) -/
+
+/-- the model's system with one lock PER TARGET ADDRESS instead of the one lock cell: `held` are the threads that hold
+the lock of the target they address -/
+structure SysT where
+  sys : Sys
+  held : List Nat := []
+
+/-- target address of thread `t` (`tg[t]`; beyond the list — the keep-alive — the BMC, 20h) -/
+def targetOf (tg : List Nat) (t : Nat) : Nat := tg.getD t 0x20
+
+/-- One step of thread `t` when `_send_and_receive` takes `self._lock_for(target)`: the step of the model, with the
+lock cell showing the holder of the lock of `t`'s OWN target (free if only threads addressing other targets are in
+their lock blocks). -/
+def stepT (tg : List Nat) (st : SysT) (t : Nat) : Option SysT :=
+  let owner := st.held.find? fun u => targetOf tg u == targetOf tg t
+  match step { st.sys with lock := owner } t with
+  | none => none
+  | some s' =>
+    some ⟨s', if s'.lock == some t && owner != some t then t :: st.held
+              else if s'.lock == none && owner == some t then st.held.erase t else st.held⟩
+
+def runT (tg : List Nat) (st : SysT) (sched : List Nat) : SysT :=
+  sched.foldl (fun st t => (stepT tg st t).getD st) st
+
+/-- an application thread making one call and the keep-alive (one tick); session sequence starting at 7 -/
+def twoTargetsCfg : Cfg := { nextSeq := 4, sessSeq := 7, xl := 0, threads := [(1, 1)], ka := some 1 }
+/-- the application thread transmits, the keep-alive's interval elapses and it runs its whole call, then the rest -/
+def overtakeSched : List Nat := List.replicate 10 0 ++ List.replicate 14 1 ++ List.replicate 4 0
+/-- the application thread is between the load and the store of `session.sequence_number += 1` when the keep-alive
+runs its whole call -/
+def sameSeqSched : List Nat := List.replicate 6 0 ++ List.replicate 13 1 ++ List.replicate 8 0
+
+/-- both schedules continued until every thread has finished, whatever the locks let through -/
+def fillSched : List Nat := List.replicate 14 0 ++ List.replicate 14 1
+
+/-- **A lock per target is not the property's lock.**  With `self._lock_for(target)` the application thread (addressing
+82h) and the keep-alive (addressing the BMC) are not serialised: under `overtakeSched` the keep-alive transmits inside
+the application thread's exchange and takes its reply — clauses (X) and (O) are false, the application thread's call
+ends in an error although nothing was lost —, under `sameSeqSched` both datagrams carry session sequence number 8 —
+clause (S) is false.  With both threads addressing the BMC (one lock again) the very same schedules are runs of the
+model (`run`), which the monitor accepts (`monitor_accepts_all_schedules`).  That the source has ONE lock object is
+`Shape.oneLock` (`source_shape`); the schedules are found on the real code by the different-targets stream of the
+check. -/
+theorem lock_per_target_counterexample :
+    exchangesOk (runT [0x82] ⟨init twoTargetsCfg, []⟩ overtakeSched).sys.wireChron = false ∧
+    ownReply (runT [0x82] ⟨init twoTargetsCfg, []⟩ overtakeSched).sys.wireChron
+      (runT [0x82] ⟨init twoTargetsCfg, []⟩ overtakeSched).sys.results = false ∧
+    seqIncreasing (runT [0x82] ⟨init twoTargetsCfg, []⟩ sameSeqSched).sys.wireChron = false ∧
+    (runT [0x20] ⟨init twoTargetsCfg, []⟩ (overtakeSched ++ fillSched)).sys.wireChron =
+      (run (init twoTargetsCfg) (overtakeSched ++ fillSched)).wireChron ∧
+    (runT [0x20] ⟨init twoTargetsCfg, []⟩ (sameSeqSched ++ fillSched)).sys.wireChron =
+      (run (init twoTargetsCfg) (sameSeqSched ++ fillSched)).wireChron ∧
+    (run (init twoTargetsCfg) (sameSeqSched ++ fillSched)).wireChron = [.tx 0 0 8 5 1, .rx 0 0, .tx 1 1 9 6 1, .rx 1 1] :=
+  ⟨by decide +kernel, by decide +kernel, by decide +kernel, by decide +kernel, by decide +kernel, by decide +kernel⟩
 
 /-- a test configuration with the variant flags the translator read from today's source -/
 def ofSource (c : Cfg) : Cfg :=
@@ -524,6 +603,16 @@ example : ownReply [.tx 0 0 8 1 1, .rx 0 0] [⟨1, 0, some 0⟩] = false := by d
 example : closeLast [.tx 0 0 8 1 0x3c, .rx 0 0, .tx 1 1 9 2 1, .rx 1 1] = false := by decide
 example : closeLast [.tx 1 0 8 1 1, .rx 1 0, .tx 0 1 9 2 0x3c, .rx 0 1] = true := by decide
 
+-- multi-datagram exchanges (clause X′ of Spec/Threads.lean)
+-- bridged exchange: tx, acknowledgement, wrapped reply; then the keep-alive's exchange
+example : acceptsMulti [.tx 0 0 8 5 0x34, .rx 0 0, .rx 0 0, .tx 1 1 9 6 1, .rx 1 1] [⟨0, 0, some 0⟩, ⟨1, 1, some 1⟩] = true ∧
+    exchangesOk [.tx 0 0 8 5 0x34, .rx 0 0, .rx 0 0, .tx 1 1 9 6 1, .rx 1 1] = false := by decide
+-- a lock per target: the keep-alive's exchange inside the bridged one; it takes the acknowledgement
+example : exchangesOkMulti [.tx 0 0 8 5 0x34, .tx 1 1 9 6 1, .rx 1 0, .rx 1 1, .rx 0 0] = false ∧
+    exchangesOkMulti [.tx 0 0 8 5 0x34, .rx 0 0, .tx 1 1 9 6 1, .rx 1 1, .rx 0 0] = false ∧
+    exchangesOkMulti [.tx 0 0 8 5 0x34, .rx 0 0, .tx 1 1 9 6 1, .rx 0 0, .rx 1 1] = false ∧
+    exchangesOkMulti [.tx 0 0 8 5 0x34, .tx 1 1 9 6 1] = false ∧
+    exchangesOkMulti [.tx 0 0 8 5 0x34, .rx 0 0, .to 1 0] = false := by decide
 -- the model does not accept a trace that sends without the lock
 example : (replay (init racyCfg) [(0, .ldNS 4), (0, .stNS 5), (0, .ldNS 5), (0, .ldAct true)]).toOption = none := by
   decide
